@@ -184,6 +184,12 @@ func c04(tier string) int {
 	runPlan(run, p, c04Monitor(run, true), nil)
 	// One configuration on the real wall clock with the inclusive window.
 	c04WallClock(run)
+	// Concurrent leg: growth vs refresh of one log - every
+	// checkpoint handed out under every interleaving is the submitted text,
+	// log-signed, with exactly one valid line per witness key.
+	c05Concurrent(run, "C04", tier)
+	// Fault leg: the same for every accepted update under every single storage fault.
+	runFaults(run, "C04", tier, false)
 	wh.InstallLogicalClock()
 	for _, sgs := range p.signers {
 		sg, nk := strings.Join(sgs, "+"), len(sgs)-1
